@@ -19,7 +19,40 @@ const STUB: [&str; 4] = [
 ];
 
 pub fn all() -> Vec<Property> {
-    vec![c01(), c07(), c08()]
+    vec![c01(), c07(), c08(), c09()]
+}
+
+fn c09() -> Property {
+    Property {
+        id: "C09",
+        level: "exploration",
+        variants: vec![
+            Variant {
+                name: "client-receiver-vs-scripted-sender",
+                weight: 3,
+                make: || Box::pin(scen::c09::run_client()),
+                max_steps: 3_000_000,
+                note: "real client Receiver <-> scripted sender",
+            },
+            Variant {
+                name: "listener-receiver-vs-scripted-sender",
+                weight: 1,
+                make: || Box::pin(scen::c09::run_listener()),
+                max_steps: 3_000_000,
+                note: "real listener-side Receiver (LinkAcceptor) <-> scripted client sender",
+            },
+        ],
+        quick_runs: 8_000,
+        thorough_runs: 300_000,
+        rule: "one run = seeded credit policy (Auto(n) n in {1,2,3,4,5,10,200} or Manual with set_credit/drain), auto-accept, rcv-settle-mode, disposal order (each, batches, mixed outcomes, via the disposer, never), sender's initial delivery-count (incl. near 2^31 and 2^32), and a sender that stays within credit, goes exactly to the limit, or overruns it by 1-3 deliveries (single- and multi-frame, settled or not, occasionally restating its delivery-count); every run is non-trivial; distinct = distinct event-log hash",
+        assumptions: vec![
+            "liveness (replenishment) is only demanded in runs where the application disposes of every delivery it receives: the code replenishes on disposal",
+            "while traffic flows a reported delivery-count must be feasible for some prefix of what the sender had written; it must be exact at quiescence",
+        ],
+        real_components: REAL.to_vec(),
+        stub_components: STUB.to_vec(),
+        expected_probes: vec!["sent-exactly-to-the-limit", "transfer-beyond-credit", "multi-frame-delivery", "sender-waited-for-credit", "sender-restated-delivery-count", "drain-answered"],
+    }
 }
 
 fn c08() -> Property {
@@ -110,6 +143,6 @@ fn c01() -> Property {
         ],
         real_components: REAL.to_vec(),
         stub_components: STUB.to_vec(),
-        expected_probes: vec!["multi-frame-message", "net-fragmented-delivery", "manual-credit-refill"],
+        expected_probes: vec!["multi-frame-message", "link-level-split-message", "net-fragmented-delivery", "manual-credit-refill"],
     }
 }
